@@ -399,7 +399,7 @@ import json, itertools
 import txaio; txaio.use_asyncio()
 from autobahn.wamp import message as M
 from autobahn.wamp.exception import ProtocolError, InvalidUriError
-VALS = [0, 1, -1, 2 ** 53, 2 ** 53 + 1, True, False, None, 1.5, "a.b", "", "a b", "x_y", b"x", [], [1], ["a"], {}, {"x": 1}, {1: 2},
+VALS = [0, 1, -1, 2 ** 53, 2 ** 53 + 1, True, False, None, 1.5, 0.0, 1.0, "a.b", "", "a b", "x_y", b"x", [], [1], ["a"], {}, {"x": 1}, {1: 2},
         [{}], {"features": {}}, {"features": {"x": 1}}, {"features": 1}, {"caller": {}}, {"broker": {}}, {"bogus": {}}]
 BASES = {
     "Hello": [[1, "realm1", {"roles": {"caller": {}}}],
@@ -462,6 +462,11 @@ for cls_name in ("Hello", "Welcome"):
                     v = getattr(r, f)
                     if v is not None and type(v) not in ts:
                         bad.append({"cls": cls_name, "wmsg": repr(w), "problem": "accepted with %s = %r" % (f, v)})
+            # role feature flags of an accepted message are booleans (type-strict: 0 / 1 / 1.0 are not) or absent
+            for rname, feats in (getattr(r, "roles", None) or {}).items():
+                for fk, fv in vars(feats).items():
+                    if not fk.startswith("_") and fk != "ROLE" and fv is not None and type(fv) is not bool:
+                        bad.append({"cls": cls_name, "wmsg": repr(w), "problem": "accepted with role feature %s.%s = %r" % (rname, fk, fv)})
             try:
                 r.marshal()
             except Exception as e:
@@ -692,7 +697,7 @@ def _fuzz_crosscheck(tier, seed, roundtrip=None, name="C08/bounded/parse-units-v
 def extra_checks(tier, seed):
     """Hello.parse / Welcome.parse build role objects from untrusted feature dicts (`role_cls(**features)`) and collect custom
     attributes by iterating the details: outside what the verifier models.  A *bounded* stand-in on the real code: every
-    single-position / single-option / single-role replacement, by 27 values covering every JSON / CBOR type and the id
+    single-position / single-option / single-role replacement, by 29 values covering every JSON / CBOR type and the id
     boundaries, of 5 base messages.  Labelled bounded, never counted as proved."""
     import time
     from pyvc import replaylib as Rp
@@ -724,7 +729,7 @@ def extra_checks(tier, seed):
     for cls, bads in by_cls.items():
         res.append({"name": "C08/bounded/%s.parse" % cls, "kind": "bounded", "status": "refuted" if bads else "proved",
                     "bounded": True, "backend": "enumeration on the real code", "time": round(time.time() - t0, 2),
-                    "bound": "every single-position / single-option / single-role replacement by 27 values of every JSON / CBOR "
+                    "bound": "every single-position / single-option / single-role replacement by 29 values of every JSON / CBOR "
                              "type, of the base messages" + (" and every pair of option replacements" if pairs else
                                                              " (pairs of replacements: thorough tier only)"),
                     "cases": out.get("cases"), "info": {"detail": str(bads)[:600]},
